@@ -513,3 +513,9 @@ def select_for_mode(case, mode, tier):
     if tier == "quick":
         return n <= 8 and case.get("_n", 0) % 40 == 0
     return n <= 12 and case.get("_n", 0) % (8 if mode == "nojit" else 16) == 0
+
+
+
+# the translated kernel of this property (Gen/Kernels.lean) is run against the real compiled kernel as well
+from checks.harness import genkernels  # noqa: E402
+genkernels.install(globals(), "C16")
